@@ -725,6 +725,14 @@ def gen_tie_world(rng: random.Random, n_steps: int) -> Dict[str, Any]:
          "stations": stations, "bases": bases, "prices": prices, "price_key": "geoid", "focus": "ties",
          "schedules": [("day", _hms(dt * 6), _hms(dt * (n_steps - 5)))], "rate": (3.0, 0.0, 3.0),      # equal request values
          "dispatcher": {"charging_range_km_threshold": 20, "charging_range_km_soft_threshold": 60}}
+    if rng.random() < 0.6:
+        # plug types that charge these vehicles equally fast (150 kW and 50 kW plugs, vehicles that accept 50 kW): a tie
+        # between plug types of one station for whoever ranks them by time
+        w["chargers"] = [("LEVEL_1", "electric", 3.3, "kilowatts"), ("LEVEL_2", "electric", 7.2, "kilowatts"),
+                         ("DCFC", "electric", 50, "kilowatts"), ("GAS_PUMP", "gasoline", 0.16, "gal_per_second"),
+                         ("DC150", "electric", 150, "kilowatts"), ("ADC150", "electric", 150, "kilowatts")]
+        for s_ in stations[:2]:
+            s_["plugs"] = s_["plugs"] + [("DC150", 2, True), ("ADC150", 2, True)]
     if rng.random() < 0.7:
         # one lot listed as several stations (one per operator): candidates of exactly equal rank inside ONE search cell
         twins = [dict(stations[0], id="sa_twin"), dict(stations[0], id="a_lot")]
